@@ -30,6 +30,7 @@ type PStmt struct {
 	Num   bool    `json:"num,omitempty"`  // jmp: numeric target (N) instead of a label
 	Mode  int     `json:"mode,omitempty"` // filled in by the renderer: mode in force
 	Tag   string  `json:"tag,omitempty"`  // what the statement is there to observe (C05/C06 signatures)
+	Alt   string  `json:"alt,omitempty"`  // raw statements of C11: the text of the inlined variant
 }
 
 type Prog struct {
